@@ -322,7 +322,7 @@ pub fn run(run: &mut Run) -> &'static str {
     ];
     let strat = (proptest::sample::select(szs), proptest::collection::vec(any::<u32>(), 1..4), proptest::collection::vec(op, 1..60))
         .prop_map(|(initial_mb, slots, ops)| Case { initial_mb, slots, ops });
-    let cases = run.tier.pick(60_000, 3_000_000);
+    let cases = run.tier.pick(300_000, 6_000_000);
     run.proptest_part("ops", RULE, strat, cases, run_case);
     if tier == Tier::Thorough {
         // the largest advertised size: a handful of sequences on a 1024 MB table
